@@ -1,17 +1,21 @@
 (* Property C18 -- theorems only.  Each is closed by `exact <lemma>` and followed by Print Assumptions.
    Gen_Vertices.v / Gen_Ceil.v (GetVertices, Ceil) are regenerated from /repo's headers on every run; Model.v is the
-   executable model of DataColumnList that calls them and is run against the real class on every run. *)
+   executable model of DataColumnList (pvAdd, pvFillAddends, pvAddEdges, Graph::AddEdges/FillAddends, pvAddColumns,
+   pvGetOffset, Contains) that calls them; its extraction is run against the real class on every run.
+   L = logVertexCount, keep = Settings::keepRowNumber, a "group" = the columns of one Add(column, columns...) call.
+   group_ok: codes are 64-bit, 0 < size <= 2^32, alignment in {1,2,4,8,16} dividing the size
+   (ObjectAlignmenter::Check), fewer than 2^32 columns in one call. *)
 From Coq Require Import ZArith List.
 From MomoCommon Require Import GenPrelude.
-From C18 Require Gen_Vertices Gen_Ceil Model Layout.
+From C18 Require Gen_Vertices Gen_Ceil Model Layout Fill Vertices Inv Main.
 Import ListNotations.
 Local Open Scope Z_scope.
 
-(* pvAddEdges: for EVERY list of columns added in one Add (sizes up to 4 GiB, alignment a power of two <= 16 that
-   divides the size -- what ObjectAlignmenter::Check enforces), starting at any current total size and alignment:
-   the new slots form a chain (in order, each offset a multiple of its alignment, each starting at or after the
-   end of the previous one and at or after the old total size), the chain ends at the new total size, total size
-   and alignment only grow, every column's alignment divides the list alignment, no 64-bit wrap-around happens. *)
+(* (1) pvAddEdges: for EVERY list of columns added in one Add, starting at any current total size and alignment:
+   the new slots form a chain (in order, each offset a multiple of its alignment, each starting at or after the end
+   of the previous one and at or after the old total size), the chain ends at the new total size, total size and
+   alignment only grow, every column's alignment divides the list alignment, no 64-bit wrap-around happens, and
+   the edges put into the graph are exactly those of the new records. *)
 Theorem C18_layout_ok :
   forall L cp g cs off al g' off' al' rs,
     Forall Layout.col_ok cs -> 0 <= off -> off + Z.of_nat (length cs) * (Layout.maxItemSize + 16) <= 2 ^ 63 ->
@@ -25,18 +29,135 @@ Theorem C18_layout_ok :
 Proof. exact Layout.new_edges_ok. Qed.
 Print Assumptions C18_layout_ok.
 
-(* what a chain means: every slot lies inside [lo, hi), is aligned and non-empty ... *)
-Theorem C18_chain_slot_inside :
-  forall lo rs hi r, Layout.chain lo rs hi -> In r rs ->
-    lo <= Model.r_off r /\ Model.r_off r + Model.r_size r <= hi /\
-    Model.r_off r mod Model.r_align r = 0 /\ 0 < Model.r_size r.
-Proof. exact Layout.chain_in. Qed.
-Print Assumptions C18_chain_slot_inside.
+(* every reachable column list (any history of accepted and refused Adds from the empty list): each column's slot
+   starts after the row-number slot, ends inside the total size, is aligned, its alignment divides the list
+   alignment; two different columns never overlap and never have the same code. *)
+Theorem C18_reachable_layout_ok :
+  forall L keep, 4 <= L <= 15 -> forall ops, Forall Inv.group_ok ops ->
+    let st := Model.run L keep ops in
+    (forall r, In r (Model.columns st) ->
+       Model.rowNumberSize keep <= Model.r_off r /\ Model.r_off r + Model.r_size r <= Model.totalSize st /\
+       0 < Model.r_size r /\ Model.r_off r mod Model.r_align r = 0 /\ (Model.r_align r | Model.alignment st) /\
+       Model.totalSize st < 2 ^ 47) /\
+    (forall i j ri rj, (i < j)%nat ->
+       nth_error (Model.columns st) i = Some ri -> nth_error (Model.columns st) j = Some rj ->
+       Model.r_off ri + Model.r_size ri <= Model.r_off rj /\ Model.r_code ri <> Model.r_code rj).
+Proof. exact Main.reachable_layout. Qed.
+Print Assumptions C18_reachable_layout_ok.
 
-(* ... and two different columns never overlap *)
-Theorem C18_chain_slots_disjoint :
-  forall lo rs hi i j ri rj, Layout.chain lo rs hi -> (i < j)%nat ->
-    nth_error rs i = Some ri -> nth_error rs j = Some rj ->
-    Model.r_off ri + Model.r_size ri <= Model.r_off rj.
-Proof. exact Layout.chain_disjoint. Qed.
-Print Assumptions C18_chain_slots_disjoint.
+(* (2) the generated GetVertices: both vertices index into the vertex arrays and differ (AddEdges' extra check) *)
+Theorem C18_getvertices_in_range_distinct :
+  forall L code cp, 4 <= L <= 15 -> 0 <= cp <= 255 ->
+    0 <= fst (Gen_Vertices.GetVertices L code cp) < 2 ^ L /\ 0 <= snd (Gen_Vertices.GetVertices L code cp) < 2 ^ L /\
+    fst (Gen_Vertices.GetVertices L code cp) <> snd (Gen_Vertices.GetVertices L code cp).
+Proof. exact Vertices.GetVertices_range. Qed.
+Print Assumptions C18_getvertices_in_range_distinct.
+
+(* Graph::FillAddends (recursive DFS) + the vertex loop of pvFillAddends on ANY graph whose edge targets lie in
+   `dom` and whose edge values are <= B with (fuel+1)*B < 2^63, started from any table in which every non-zero vertex
+   is finished: the fuel (= number of vertices + 1) never runs out, and if the result is `true` then for every vertex
+   of the loop every edge (v -> v2, value) has addends[v] <> 0, addends[v2] <> 0, addends[v]+addends[v2] = value mod 2^64 *)
+Theorem C18_fill_addends_correct :
+  forall (g : Model.graph) (dom : list Z) (B F : Z),
+    (forall v v2 val, In (v2, val) (g v) -> In v2 dom /\ 0 <= val <= B) -> 0 <= B -> (F + 1) * B < 2 ^ 63 ->
+    forall f0 : nat, Z.of_nat f0 = F -> (length dom < f0)%nat ->
+    forall vs a, Fill.near B F a -> (forall w, a w <> 0 -> Fill.edges_ok g a w) ->
+    exists b a', Model.fill_all f0 g vs a = Some (b, a') /\ Fill.extends a a' /\ Fill.near B F a' /\
+      (b = true -> (forall w, a' w <> 0 -> Fill.edges_ok g a' w) /\ (forall v, In v vs -> Fill.edges_ok g a' v)).
+Proof. exact Fill.fill_all_spec. Qed.
+Print Assumptions C18_fill_addends_correct.
+
+(* addends_lookup: for every code parameter and every list of column records (offsets <= 2^47): building the graph
+   with GetVertices and running pvFillAddends never runs out of fuel, and if it succeeds then pvGetOffset finds
+   EVERY record at its offset (and its MOMO_ASSERT holds) *)
+Theorem C18_addends_lookup :
+  forall L, 4 <= L <= 15 -> forall cp rs, 0 <= cp <= 255 -> (forall r, In r rs -> 0 <= Model.r_off r <= Inv.Bsz) ->
+    exists b a, Model.fill_all (Model.dfs_fuel L) (Model.old_edges L cp Model.g_empty rs) (Model.vertices L) (fun _ => 0) = Some (b, a) /\
+      (b = true -> forall r, In r rs -> Model.lookup L cp a (Model.r_code r) = Some (Model.r_off r)).
+Proof. exact Inv.graph_lookup. Qed.
+Print Assumptions C18_addends_lookup.
+
+(* one Add on a list satisfying the invariant: never OutOfFuel / AssertFails; accepted -> invariant again, the old
+   records are kept and the new ones follow in order inside [old total size, new total size), total size /
+   alignment / codeParam only grow; "Too many columns" exactly when the count would exceed maxColumnCount; "Cannot
+   add columns" only when pvFillAddends failed for EVERY code parameter from mCodeParam to 255 *)
+Theorem C18_add_spec :
+  forall L keep, 4 <= L <= 15 -> forall st cs, Inv.Inv L keep st -> Inv.group_ok cs ->
+    match Model.add L st cs with
+    | Model.Added st' =>
+        Inv.Inv L keep st' /\
+        (exists rs, Model.columns st' = Model.columns st ++ rs /\ map Model.r_code rs = map Model.c_code cs /\
+                    map Model.r_size rs = map Model.c_size cs /\ map Model.r_align rs = map Model.c_align cs /\
+                    Layout.chain (Model.totalSize st) rs (Model.totalSize st')) /\
+        Model.totalSize st <= Model.totalSize st' /\ Model.alignment st <= Model.alignment st' /\
+        Model.codeParam st <= Model.codeParam st'
+    | Model.TooMany => Model.maxColumnCount L < Z.of_nat (length cs) + Z.of_nat (length (Model.columns st))
+    | Model.Refused => forall cp, Model.codeParam st <= cp <= 255 ->
+                   exists a1 o1 l1 r1, Model.try_param L st cp cs = Some (false, a1, o1, l1, r1)
+    | Model.OutOfFuel => False
+    | Model.AssertFails => False
+    end.
+Proof. exact Inv.add_spec. Qed.
+Print Assumptions C18_add_spec.
+
+Theorem C18_reachable_invariant :
+  forall L keep, 4 <= L <= 15 -> forall ops, Forall Inv.group_ok ops -> Inv.Inv L keep (Model.run L keep ops).
+Proof. exact Inv.run_inv. Qed.
+Print Assumptions C18_reachable_invariant.
+
+(* looking up an added column in any reachable list yields its recorded offset *)
+Theorem C18_lookup_yields_offset :
+  forall L keep, 4 <= L <= 15 -> forall ops, Forall Inv.group_ok ops ->
+    forall r, In r (Model.columns (Model.run L keep ops)) ->
+      Model.get_offset L (Model.run L keep ops) (Model.r_code r) = Some (Model.r_off r).
+Proof. exact Main.reachable_lookup. Qed.
+Print Assumptions C18_lookup_yields_offset.
+
+(* offsets_stable_under_add: one more Add (accepted or refused) keeps every record, and the old columns are found
+   at the same offsets through the new addends table / code parameter *)
+Theorem C18_offsets_stable_under_add :
+  forall L keep, 4 <= L <= 15 -> forall ops cs, Forall Inv.group_ok ops -> Inv.group_ok cs ->
+    exists rs, Model.columns (Model.run L keep (ops ++ [cs])) = Model.columns (Model.run L keep ops) ++ rs /\
+      forall r, In r (Model.columns (Model.run L keep ops)) ->
+        Model.get_offset L (Model.run L keep (ops ++ [cs])) (Model.r_code r) = Some (Model.r_off r).
+Proof. exact Main.offsets_stable_under_add. Qed.
+Print Assumptions C18_offsets_stable_under_add.
+
+(* (3) Contains(columnInfo, &offset) is true exactly for the columns of the accepted Adds ... *)
+Theorem C18_contains_iff_added :
+  forall L keep, 4 <= L <= 15 -> forall ops code, Forall Inv.group_ok ops ->
+    ((exists off, Model.contains L (Model.run L keep ops) code = Some off) <->
+     In code (map Model.c_code (Main.accepted L (Model.init keep) ops))).
+Proof. exact Main.contains_iff_added. Qed.
+Print Assumptions C18_contains_iff_added.
+
+(* ... and the offset it reports is the column's offset *)
+Theorem C18_contains_offset :
+  forall L keep, 4 <= L <= 15 -> forall ops code off, Forall Inv.group_ok ops ->
+    (Model.contains L (Model.run L keep ops) code = Some off <->
+     exists r, In r (Model.columns (Model.run L keep ops)) /\ Model.r_code r = code /\ Model.r_off r = off).
+Proof. exact Main.reachable_contains. Qed.
+Print Assumptions C18_contains_offset.
+
+(* refused_add_unchanged: whatever is not `Added` leaves the object exactly as it was (both throws of pvAdd happen
+   before the first member is written; see NOTES.md for the allocation failures that are not modelled) *)
+Theorem C18_refused_add_unchanged :
+  forall L st cs, (forall st', Model.add L st cs <> Model.Added st') -> Model.after st (Model.add L st cs) = st.
+Proof. exact Inv.refused_unchanged. Qed.
+Print Assumptions C18_refused_add_unchanged.
+
+(* non-vacuity: a history whose third Add needs the second code parameter, a refused duplicate, "Too many columns" *)
+Theorem C18_example_retry :
+  let st := Model.run 4 true [[Main.u32 160]; [Main.u32 242]; [Main.u32 10]] in
+  (Model.codeParam st, Model.totalSize st, Model.alignment st, map Model.r_off (Model.columns st)) = (1, 20, 4, [8; 12; 16]).
+Proof. exact Main.retry_history. Qed.
+Print Assumptions C18_example_retry.
+
+Theorem C18_example_refused :
+  match Model.add 4 (Model.run 4 true [[Main.u32 160]; [Main.u32 242]]) [Main.u32 160] with Model.Refused => True | _ => False end.
+Proof. exact Main.refused_history. Qed.
+Print Assumptions C18_example_refused.
+
+Theorem C18_example_hypotheses_hold : Forall Inv.group_ok [[Main.u32 160]; [Main.u32 242]; [Main.u32 10]].
+Proof. exact Main.group_ok_example. Qed.
+Print Assumptions C18_example_hypotheses_hold.
